@@ -751,9 +751,18 @@ func (ex *Exec) runBlocks(fr *Frame, start *ssa.BasicBlock) Value {
 			switch x := in.(type) {
 			case *ssa.If:
 				cond := ex.get(fr, x.Cond).(*Term)
-				if !cond.IsConst() && !ex.cfg.NoMerge {
+				if v, ok := ex.knownFact(cond); ok && ex.guard == nil {
+					cond = ex.c.Bool(v)
+				}
+				if !cond.IsConst() && !ex.cfg.NoMerge && ex.guard == nil {
 					if mi := mergeable(b); mi != nil {
-						if phis, ok := ex.tryMerge(fr, b, cond, mi); ok {
+						// merge only when both sides are feasible; an implied condition is simply followed
+						ft, ff := ex.probe(cond)
+						if ft != ff {
+							cond = ex.c.Bool(ft)
+						} else if !ft {
+							panic(pathAbort{kind: "infeasible"})
+						} else if phis, ok := ex.tryMerge(fr, b, cond, mi); ok {
 							mergedPhis = phis
 							if mergedPhis == nil {
 								mergedPhis = []Value{}
